@@ -25,6 +25,7 @@ pub fn property() -> Property {
             name: "sender-sessions",
             rule: "see property rule",
             cases: (480_000, 4_000_000),
+            fuzz_decode: Some(crate::fuzzdec::send_case),
             strategy,
             check,
             required_classes: &[
